@@ -56,14 +56,27 @@ theorem int_truncates_toward_zero (n : Bool) (m : Nat) (e : Int) (p : Nat) (hN :
       q * 2 ^ (-e).toNat < m ∧ m < (q + 1) * 2 ^ (-e).toNat :=
   int_frac n m e p hN he
 
-/-- `int` leaves ±infinity fixed (an infinity has no fractional part to discard) … -/
-theorem int_inf_fixed (n : Bool) : intImpl [numVal (.inf n)] = .ok (numVal (.inf n)) := by
-  simp [intImpl, Num.isInf, Num.isInt]
+/-- `int` rejects ±infinity — EVERY infinity, whatever `big.Float` carries it — with a
+plain error, as documented for `Int` ("If an infinity is passed to Int, an error is
+returned"): an infinity is outside the function's domain (/repo f991adf; before it
+the infinity came back, before e69819b the call panicked) … -/
+theorem int_inf_error (n : Bool) : ∃ msg, intImpl [numVal (.inf n)] = .err msg :=
+  int_inf n
+
+/-- … it fails ONLY there ("they fail only outside their documented domain"): `int`
+succeeds exactly on the finite numbers … -/
+theorem int_ok_iff_finite (x : Num) : (intImpl [numVal x]).isOk = true ↔ x.isInf = false := by
+  cases x with
+  | inf n => obtain ⟨msg, h⟩ := int_inf n; rw [h]; simp [Res.isOk, Num.isInf]
+  | fin n m e p =>
+    by_cases hi : (Num.fin n m e p).isInt = true
+    · rw [int_whole _ hi]; simp [Res.isOk, Num.isInf]
+    · simp [intImpl, hi, Num.truncInt, Num.isInf, Res.isOk]
 
 /-- … and never panics on a number. -/
 theorem int_never_panics (x : Num) : (intImpl [numVal x]).isPanic = false := by
   cases x with
-  | inf n => rw [int_inf_fixed]; rfl
+  | inf n => obtain ⟨msg, h⟩ := int_inf n; rw [h]; rfl
   | fin n m e p =>
     by_cases hi : (Num.fin n m e p).isInt = true
     · rw [int_whole _ hi]; rfl
@@ -513,6 +526,8 @@ example : intImpl [numVal (.fin true 5 (-1) 53)] = .ok (numVal (.fin true 1 1 64
 -- witnesses of repaired defects (3f9a6a5, 2a9c93a, d93e8c0): must keep holding
 example : signumImpl [numVal (.fin false 1 (-1) 53)] = .ok (intVal 1) := rfl              -- signum(0.5) = 1
 example : signumImpl [numVal (.inf true)] = .ok (intVal (-1)) := rfl
+example : (intImpl [numVal (.inf false)]).isOk = false := rfl                            -- int(+inf): the documented error (f991adf)
+example : (intImpl [numVal (.inf true)]).isPanic = false := rfl
 example : substrClusters ["a"] (-1) 0 = [] := by decide                                    -- substr("a", -1, 0) = ""
 example : precCut (fun s => [s]) { raw := [], offset := 0, argNum := 1, hasPrec := true, prec := 0 } "a" = "" := by decide
 example : fromCtyInt (intVal 16) = .ok 16 := by decide
